@@ -721,11 +721,11 @@ func init() {
 		Setup:       validateOracle,
 		Timeout:     minutes(15, 120),
 		Cases: func(tier string, seed int64) []fw.Case {
-			l := mkCases(nil, "stale", 32, seed, pick(tier, 4, 150))
-			l = mkCases(l, "late", 16, seed, pick(tier, 4, 150))
-			l = mkCases(l, "held", 8, seed, pick(tier, 3, 100))
-			l = mkCases(l, "hostile", 32, seed, pick(tier, 5, 200))
-			l = mkCases(l, "blackbox", 16, seed, pick(tier, 2, 60))
+			l := mkCases(nil, "stale", 32, seed, pick(tier, 4, 60))
+			l = mkCases(l, "late", 16, seed, pick(tier, 4, 80))
+			l = mkCases(l, "held", 8, seed, pick(tier, 3, 40))
+			l = mkCases(l, "hostile", 32, seed, pick(tier, 5, 100))
+			l = mkCases(l, "blackbox", 16, seed, pick(tier, 2, 40))
 			return l
 		},
 		Floors: func(string) map[string]int64 {
